@@ -48,3 +48,40 @@ PROPS["C07"] = {
     "engine_flags": ["-qtimeout", "2500"],
     "timeout_quick": 420, "timeout_thorough": 3000,
 }
+
+PROPS["C08"] = {
+    "files": ["types/validator_set.go", "types/validator.go", "state/store.go"],
+    "groups": [
+        {"dir": "types",
+         "quick": ["VP_C08_Update_n1_c1", "VP_C08_Update_n2_c1", "VP_C08_Update_n2_c2", "VP_C08_Rotation_n2_T3", "VP_C08_Rotation_n2_T4", "VP_C08_Rotation_n3_T4"],
+         "thorough": ["VP_C08_Update_n3_c2", "VP_C08_Rotation_n3_T5", "VP_C08_Rotation_n3_T6", "VP_C08_Rotation_n2_big"]},
+        {"dir": "state",
+         "quick": ["VP_C08_History_n2_low", "VP_C08_History_n2_low_change", "VP_C08_History_n2_checkpoint", "VP_C08_History_n3_checkpoint", "VP_C08_History_n2_checkpoint_change"],
+         "thorough": []},
+    ],
+    "bounds": {
+        "update": "current set of n = 1..2 (thorough 3) validators (powers 5,3,3) built by the real NewValidatorSet; batch of c = 1..2 changes, each: address from a pool of n+2 (existing or fresh, duplicates possible), power = 0 | symbolic in [1,2^12] | symbolic negative or above the cap | symbolic within 16 of MaxTotalVotingPower; the reversed batch is applied to a copy",
+        "rotation": "n = 2..3 validators with symbolic powers, total <= 3..6 (one configuration with total up to MaxTotalVotingPower), T = total steps of the real IncrementProposerPriority(1) against the specified algorithm (centre, add power, pick max with address tie-break, subtract total)",
+        "history": "chain segments of 4..5 heights at heights 5.. and 99998..100002 (crossing the 100000 checkpoint), n = 2..3 validators, powers 1..4 and the change height / new power concretised (one branch per value), saved with the real saveValidatorsInfo on the real MemDB, every height looked up with LoadValidators",
+    },
+    "stubs": ["math/big on 72-bit two's-complement terms", "ed25519 key derivation concrete"],
+    "outside": ["n > 3, batches > 2 (3 thorough)", "histories longer than 5 heights", "symbolic powers through the protobuf codec in the history harness (concretised instead)", "PruneStates interplay (see C18)"],
+    "engine_flags": ["-qtimeout", "2500"],
+    "timeout_quick": 500, "timeout_thorough": 3000,
+}
+
+PROPS["C01"] = {
+    "files": ["types/vote_set.go", "types/vote.go", "types/validator_set.go"],
+    "groups": [
+        {"dir": "types",
+         "quick": ["VP_C01_VoteSet_n2_k3", "VP_C01_VoteSet_n3_k2", "VP_C01_VoteSet_n2_k2_pv", "VP_C01_VoteSet_n2_k2_full"],
+         "thorough": ["VP_C01_VoteSet_n3_k3", "VP_C01_VoteSet_n3_k3_pv", "VP_C01_VoteSet_n2_k4", "VP_C01_VoteSet_n3_k3_full"]},
+    ],
+    "bounds": {
+        "vote set (H1)": "n = 2..3 validators, symbolic powers (total <= 2^16; one configuration up to MaxTotalVotingPower), histories of k = 2..3 (thorough 4) operations from: a well-formed genuinely signed vote of validator i for block A/B/nil, a junk-signature vote, a vote malformed in exactly one respect (height, round, type, index out of range / negative / other validator's index, empty address) but genuinely signed as such, SetPeerMaj23 by one of two peers for A/B/nil; quorum facts asserted after every operation; MakeCommit checked with the real VerifyCommit",
+    },
+    "stubs": ["ed25519 = ideal signature oracle (natively real)"],
+    "outside": ["see DESIGN.md C01: H2/H3 are the consensus step harness of C02; H4 (composition lemma) is a bounded SMT lemma"],
+    "engine_flags": ["-qtimeout", "2500"],
+    "timeout_quick": 500, "timeout_thorough": 3000,
+}
